@@ -124,7 +124,10 @@ pub fn run(opts: &Opts) -> i32 {
     }
     // (1c) hand-written probes for shapes outside ZCore that have gone wrong before (C01's own)
     if !opts.rest.iter().any(|a| a == "--skip-corpus-mutants") {
-        let probes: [(&str, String); 2] = [
+        let probes: [(&str, String); 5] = [
+            ("refutable-constructor-pattern-in-a-let-binder", format!("{}begin\n  let Zb = data | +True : Unit | +False : Unit end that\n  let b = (+False() : Zb) in\n  let +True() = b in\n  ! (process/exit) (0 : Int64)\nend\n", pipeline::prelude())),
+            ("refutable-constructor-pattern-in-a-function-binder", format!("{}begin\n  let Zb = data | +True : Unit | +False : Unit end that\n  (fn (+True() : Zb) => ! (process/exit) (0 : Int64)) (+False() : Zb)\nend\n", pipeline::prelude())),
+            ("fix-binder-of-a-data-type", format!("{}begin\n  def Zbox (B : CType) : VType = data | +Box : Thk B end that\n  let f = {{ fix (x : Zbox (Ret Int64)) => match x | +Box(t) => ! t end }} that\n  do r <- ! f;\n  ! (process/exit) r\nend\n", pipeline::prelude())),
             ("labelled-product-in-last-position-projected", format!("{}begin\n  let T = Int64 * (inner :: (Int64 * Int64)) that\n  let v : T = (1, inner = (2, 3)) in\n  let (a, b) = v/inner in\n  ! (process/exit) b\nend\n", pipeline::prelude())),
             ("labelled-product-in-first-position-projected", format!("{}begin\n  let T = (inner :: (Int64 * Int64)) * Int64 that\n  let v : T = (inner = (2, 3), 1) in\n  let (a, b) = v/inner in\n  ! (process/exit) b\nend\n", pipeline::prelude())),
         ];
